@@ -32,6 +32,18 @@ CLAIMED["C02"] = dict(
          "Trusted: TLC, lib/printer.py, the JSON codec.",
     technique="TLA+ definitional evaluator + TLC-enumerated programs replayed on the real runtimes; trace validation of recorded runs",
 )
+CLAIMED["C01"] = dict(
+    category="translation_validation",
+    text="Every TLC-enumerated program of LangGen.tla is compiled by both back ends and run sample by sample; each run must "
+         "equal the output stream computed by Lang.tla and the pair must be accepted by Lockstep.tla (accept/reject "
+         "agreement, channel count, bit-equal outputs at every step). Shipped examples/fixtures and systematic mutants of "
+         "them (beyond what the specification can compute) are validated by the same lock-step trace specification with "
+         "inputs including +-0, denormals, infinities and NaN.",
+    design_ref="DESIGN.md §6 C01",
+    note="Unit of evidence: one program compiled twice. Lockstep.tla states the relation between two real executions; it does "
+         "not compute values. Device plugins are not loaded. Pinned findings: see KNOWN_FINDINGS.txt.",
+    technique="TLC-generated programs replayed on both back ends against a TLA+ evaluator; lock-step trace validation with TLC",
+)
 NOT_YET = {}
 
 checks = []
